@@ -76,7 +76,7 @@ Qed.
 Definition H (k v : bytes) : field := (k, v).
 Definition sample_rq (ver : bytes) : request :=
   mkRequest [x50;x4f;x53;x54] [104;116;116;112;58;47;47;97;47;112]%N ver
-            [H [x48;x6f;x73;x74] [x61]; H [x43;x6f;x6e;x74;x65;x6e;x74;x2d;x4c;x65;x6e;x67;x74;x68] [x32];
+            [H [x48;x6f;x73;x74] [x61]; H [x43;x6f;x6e;x74;x65;x6e;x74;x2d;x4c;x65;x6e;x67;x74;x68] [x39];
              H [x41;x63;x63;x65;x70;x74] [x2a;x2f;x2a]]
             (Some [x7b;x7d]).
 Definition sample_resp (ver : bytes) (hs : list field) : response :=
@@ -107,7 +107,7 @@ Lemma sample_roundtrips :
 Proof.
   split; [exact toy_contracts|]. split; [exact sample_ok|].
   eexists. eexists. split; [vm_compute; reflexivity|]. split; [vm_compute; reflexivity|].
-  split; [vm_compute; discriminate|reflexivity].
+  split; [vm_compute; intros E; discriminate E|reflexivity].
 Qed.
 
 (* ---------------------------------------------------------------- refutations of the unguarded statement *)
@@ -143,3 +143,10 @@ Lemma header_fix_effective :
   exists es i, make_har toy [HttpFlow (sample_rq V11) (Some (sample_resp V11 [H [x58] [xff]; CL2]))] = Ok es
                /\ import_har true toy es = ([i], Clean) /\ i_sh i = [H [x58] [xff]; CL2].
 Proof. eexists. eexists. split; [vm_compute; reflexivity|]. split; vm_compute; reflexivity. Qed.
+
+Lemma roundtrip_flow_c L se rq r : contracts L -> flow_ok L se rq r ->
+  exists e i, flow_entry L rq (Some r) = Ok e /\ request_to_flow se L e = Ok i /\ same_exchange rq r i.
+Proof. intros (C1 & C2 & C3). apply roundtrip_flow; assumption. Qed.
+
+Lemma refuted_http2_table : import_req_version V20 = V11 /\ import_resp_version V20 = V11 /\ ~ version_kept V20.
+Proof. exact http2_not_kept. Qed.
